@@ -257,7 +257,8 @@ fn state_shape(doc: &Automerge, cands: &[(ObjId, ObjType)], heads: &[ChangeHash]
                     }
                     prev = Some(s);
                     let vals = doc.get_all_at(id, s, heads).map_err(|e| format!("get_all_at({},{}): {}", id, s, e))?;
-                    sh.entries.push(format!("@{} {}", s, register_shape(vals, &index)));
+                    // (the start index is not part of the entry: widths are compared through length_at / text_at)
+                    sh.entries.push(register_shape(vals, &index));
                 }
                 let t = doc.text_at(id, heads).map_err(|e| format!("text_at({}): {}", id, e))?;
                 sh.text = Some(width_shape(&t));
@@ -962,7 +963,24 @@ fn check_history(rng: &mut Rng, rep: &mut Report, cw: &mut CaseWriter, ui: usize
             return;
         }
         Err(p) => {
-            rep.fail(&["C31", "C37"], &format!("panic|anonymize|{}", p.signature()), &format!("anonymize panicked: {} at {}", p.message, p.location), replay.clone());
+            // anonymize applies the rebuilt changes one at a time to a fresh document: does the same delivery
+            // of the ORIGINAL changes panic too (then apply_changes is at fault, not the rewriting)?
+            let oc = all.get_changes(&[]);
+            let same = guard(|| {
+                let mut d = Automerge::new_with_encoding(enc);
+                for c in oc.iter() {
+                    let _ = d.apply_changes([c.clone()]);
+                }
+            });
+            let (class, props): (&str, &[&str]) = match &same {
+                Err(q) if q.signature() == p.signature() => ("original-delivery-panics-too", &["C31", "C37", "C05"]),
+                _ => ("only-the-anonymized-changes", &["C31", "C37"]),
+            };
+            rep.count(&format!("failures:panic|anonymize|{}", class));
+            rep.fail(props, &format!("panic|anonymize|{}|{}", p.signature(), class),
+                &format!("anonymize panicked: {} at {} ({}: apply_changes of the original changes, one at a time in get_changes order, to a fresh document {})",
+                    p.message, p.location, class, if same.is_err() { "panics as well" } else { "does not panic" }),
+                json!({"universe": ui, "source": source, "encoding": enc_name(enc), "log": h.log, "changes": oc.iter().map(|c| hex(c.raw_bytes())).collect::<Vec<_>>()}));
             return;
         }
     };
